@@ -36,6 +36,12 @@ O  text     (1) every line has the same width; (2) the rule lines give the colum
             same offset in every row; in an Inventory column rendered WITHOUT expand in the tabular layout the same
             holds for the n-th lot of every commodity over all rows holding one (so a commodity's sub-column does
             not move when an earlier commodity is absent, or held without cost).
+   format   the registered 'text' output format (beanquery.render.text.render = shell FORMATS['text'], the entry point of the
+            shell and of embedders) is called on every non-empty table with the same seven options plus the shell's settings
+            that are not about text (format, numberify, pager), as the shell does (**Settings.todict()): its text falls under
+            clauses (1)-(9) with the options it was handed (narrow off -> no header cut, boxed -> frame, ...).  A text identical
+            to the one of render_text just read back is not read a second time; any other text is read back in full.
+            Quick tier: on all the option combinations for tables of <= 2 rows, on the 16-run array for 3 rows.
    CSV      first record = the column names; then one record per (expanded) line of every row, each with one
             field per column; each field, stripped, equals the stripped text cell of the rendering with the same
             expand / nullvalue (for set and inventory cells: the same tokens, separators being listsep in text
@@ -86,6 +92,8 @@ ASSUMPTIONS = [
     '(sum over commodities of the most lots one row holds) are exempt because the renderer documents a plain list there ("Too many distinct '
     'commodities to present in tabular format"); expanded Inventory columns and Cost columns are not covered',
     'CSV is compared with the text rendering, as the property states; set / inventory fields are compared token-wise because the item separator differs',
+    'the registered text format is handed listsep along with the shell settings (the shell itself has no list-separator setting and never passes it; '
+    'an embedder may); an option the entry point is handed must have the effect the property states for it',
     'display contexts with render_commas, and column names containing blanks at the ends, are outside',
 ]
 
@@ -168,6 +176,9 @@ def all_options():
 
 
 BLANK_NULL = ' - '
+
+# what the shell hands to an output format besides the rendering options (shell.Settings.todict())
+SHELL_ONLY_SETTINGS = {'format': 'text', 'numberify': False, 'pager': False}
 
 
 def blank_null_options(base):
@@ -258,12 +269,19 @@ def check_text(names, dtypes, rows, o, stats):
     (spacing lines left out) the list of cells, for the CSV comparison."""
     cols = [Column(n, t) for n, t in zip(names, dtypes)]
     f = io.StringIO()
+    stats['text'] = None
     try:
         render_text(cols, rows, R.display_context(), f, **o)
     except Exception as e:    # noqa: BLE001 - any crash of the renderer is a finding
         return [(crash_fingerprint(e), None, f'render_text raised {type(e).__name__}: {e}')], None
     text = f.getvalue()
     stats['text'] = text
+    return analyse_text(text, names, dtypes, rows, o, stats)
+
+
+def analyse_text(text, names, dtypes, rows, o, stats):
+    """The text oracle (clauses 1-9) on one emitted text, whichever entry point wrote it."""
+    cols = names
     try:
         spans, header, body = R.read_text(text, len(cols), o['boxed'], o['unicode'])
     except R.Problem as p:
@@ -450,7 +468,7 @@ class TableCheck:
         self.stats = stats
         self.csv = {}
 
-    def run(self, o, csv_all=True):
+    def run(self, o, csv_all=True, fmt_all=True):
         """-> [(kind, locus, column, message)]"""
         st = self.stats
         st['renders'] += 1
@@ -464,6 +482,25 @@ class TableCheck:
         crecs, raw = self.csv[key][1], self.csv[key][2]
         if trecs is not None and crecs is not None:
             out += [('csv', loc, j, msg) for loc, j, msg in compare_csv_text(self.dtypes, self.rows, o['nullvalue'], trecs, crecs, st)]
+        # The registered 'text' output format (beanquery.render.text.render, what the shell and embedders call), handed
+        # the same options plus the shell's settings that are not about text: its text falls under the same clauses.
+        # A text identical to the one of render_text just read back needs no second reading.
+        if self.rows and fmt_all:
+            st['text_renders_through_format'] += 1
+            f = io.StringIO()
+            try:
+                beanquery.render.text.render([Column(n, t) for n, t in zip(self.names, self.dtypes)], self.rows, f, dcontext=R.display_context(),
+                                             **SHELL_ONLY_SETTINGS, **o)
+                ftext = f.getvalue()
+            except Exception as e:    # noqa: BLE001
+                out.append(('text-format', crash_fingerprint(e), None, f'render.text.render with all the options raised {type(e).__name__}: {e}'))
+                ftext = None
+            if ftext is not None and ftext != st.get('text'):
+                st['text_through_format_differs'] += 1
+                direct = st.get('text')
+                fprobs, _ = analyse_text(ftext, self.names, self.dtypes, self.rows, o, st)
+                st['text'] = direct
+                out += [('text-format', loc, j, f'through beanquery.render.text.render: {msg}') for loc, j, msg in fprobs]
         # The shell hands every setting to every renderer: CSV through the format's entry point with ALL the options
         # must be what render_csv gives with expand / nullvalue alone (boxed, spaced, narrow, unicode, listsep are text-only).
         if not csv_all:
@@ -605,7 +642,7 @@ def shard(shard_no, nshards, seed, thorough):
                     record(acc, fp, f'{pr[1]} -- {describe(names, dtnames, rows, o)}', make_case(names, dtnames, rows, o))
             # quick tier: CSV with all the options on every combination for tables of <= 2 rows, on the 16-run array for 3 rows
             csv_all = thorough or len(rows) <= 2 or tuple(sorted(o.items())) in oa16
-            for k, loc, j, msg in tc.run(o, csv_all):
+            for k, loc, j, msg in tc.run(o, csv_all, csv_all):
                 fp = fingerprint(k, loc, j, names, dtnames, rows, o)
                 record(acc, fp, f'{msg} -- {describe(names, dtnames, rows, o)}', make_case(names, dtnames, rows, o))
             if oi == 0:
@@ -646,13 +683,13 @@ def run(ctx):
     full, reduced = alphabets(ctx.seed, ctx.thorough)
     cov = {
         'states': n['configurations'],
-        'transitions': n['renders'] + n['csv_renders'] + n['csv_renders_all_options'],
+        'transitions': n['renders'] + n['csv_renders'] + n['csv_renders_all_options'] + n['text_renders_through_format'],
         'traces_validated_against_impl': n['tables'],
         'evaluations': n['readback'] + n['null'] + n['headers'] + n['csv_fields'],
         'distinct_nontrivial': len(acc.sets['outputs']),
         'rule': 'a case is one (result table, option combination); tables are enumerated completely: per datatype every column of 0..3 cells over '
                 'its alphabet x 2 header names, every ordered datatype pair x 1..2 rows over the reduced alphabets; states = cases, transitions = '
-                'renderer calls read back (text + CSV), evaluations = cells / headers / CSV fields compared; distinct & non-trivial = distinct '
+                'renderer calls read back (text, text through the registered format, CSV), evaluations = cells / headers / CSV fields compared; distinct & non-trivial = distinct '
                 'texts emitted under one fixed option combination per table',
         'exhaustive': True,
         'bound': ('single columns <= 3 cells under both headers' if ctx.thorough else 'single columns <= 3 cells (short header) / <= 2 cells (long header)')
@@ -662,6 +699,8 @@ def run(ctx):
         'empty_results_through_render_text_module': n['empty_wrapper_calls'],
         'option_combinations': {'single': 128, 'pair': 128 if ctx.thorough else 16, 'extra_with_blank_placeholder': {'single': 64, 'pair': 64 if ctx.thorough else 8}},
         'csv_cells_whose_value_has_blanks_of_its_own': n['csv_value_blanks'],
+        'text_renders_through_registered_format': n['text_renders_through_format'],
+        'texts_through_registered_format_differing_from_render_text_and_read_back_on_their_own': n['text_through_format_differs'],
         'text_renders': n['renders'], 'csv_renders': n['csv_renders'], 'csv_renders_with_all_options': n['csv_renders_all_options'],
         'cells_read_back': n['readback'], 'null_cells': n['null'], 'headers_checked': n['headers'], 'headers_cut_narrow': n['headers_cut'],
         'tables_rendered_with_expanded_rows': n['expanded_tables'],
